@@ -1,4 +1,4 @@
 #!/bin/bash
 # Offline setup: pre-build the explorer so the first check does not pay the cold-cache build.
 export GOFLAGS=-mod=mod GOPROXY=off GOSUMDB=off GOTOOLCHAIN=local
-cd /verif/mc && mkdir -p /verif/bin && go build -o /verif/bin/mc . && echo setup ok
+cd /verif/mc && mkdir -p /verif/bin && go build -o /verif/bin/mc . && /verif/check19 build-only && echo setup ok
